@@ -120,14 +120,25 @@ CanonP(x, h, path) ==
 
 Canon(x, h) == CanonP(x, h, <<>>)
 
-\* structural equality of canonical terms; sets / frozensets / dicts are unordered
+\* structural equality of canonical terms; sets / frozensets / dicts are unordered.
+\* A call of the set / frozenset builtin on a container display (how a decompiler must write a
+\* frozenset, Python having no literal for it) denotes that set: NormT rewrites it to the value.
+NormT(c) ==
+  IF c.k = "obj"
+  THEN IF /\ c.f.k = "g" /\ c.f.m = "builtins" /\ c.f.n \in {"set", "frozenset"}
+          /\ Len(c.a) = 1 /\ Len(c.kw) = 0 /\ Len(c.s) = 0
+       THEN IF c.a[1].k \in {"list", "tuple", "set", "frozenset"}
+            THEN [k |-> c.f.n, e |-> c.a[1].e] ELSE c
+       ELSE c
+  ELSE c
+
 RECURSIVE SameVal(_, _)
 SameSeq(a, b) == Len(a) = Len(b) /\ \A i \in DOMAIN a : SameVal(a[i], b[i])
-SameBag(a, b) == /\ Len(a) = Len(b)
-                 /\ \A i \in DOMAIN a : \E j \in DOMAIN b : SameVal(a[i], b[j])
+SameBag(a, b) == /\ \A i \in DOMAIN a : \E j \in DOMAIN b : SameVal(a[i], b[j])
                  /\ \A j \in DOMAIN b : \E i \in DOMAIN a : SameVal(a[i], b[j])
 SamePair(p, q) == SameVal(p[1], q[1]) /\ SameVal(p[2], q[2])
-SameVal(a, b) ==
+SameVal(x, y) ==
+  LET a == NormT(x)  b == NormT(y) IN
   /\ a.k = b.k
   /\ CASE a.k = "c"     -> a.v = b.v
        [] a.k = "g"     -> a.m = b.m /\ a.n = b.n
